@@ -840,19 +840,22 @@ func (s *sigSpec) minimize(cfg *Config, ct *callT, v verdict) (*Config, *callT, 
 
 // alphabet "Q": When over all four atoms; In with one alternative over all four atoms; In with
 // two alternatives over plain values; typed-slice In (one or two alternatives, plain values) for
-// (...int). alphabet "K" (reduced, for the longest lists of the widest signatures): When and
-// one-alternative In over the atoms {a, Any()}.
+// (...int). "W": Q without the two-alternative In clauses. "K": When and one-alternative In over
+// the atoms {a, Any()}. "k": When over {a, Any()}. The reduced alphabets serve the longest clause
+// lists of the widest signatures.
 func (s *sigSpec) alphabet(name string) []Clause {
 	var out []Clause
 	all := s.tuples([]int{aA, aB, aAny, aIn})
 	plain := s.tuples([]int{aA, aB})
-	if name == "K" {
+	if name == "K" || name == "k" {
 		red := s.tuples([]int{aA, aAny})
 		for _, t := range red {
 			out = append(out, Clause{kWhen, [][]int{t}})
 		}
-		for _, t := range red {
-			out = append(out, Clause{kIn, [][]int{t}})
+		if name == "K" {
+			for _, t := range red {
+				out = append(out, Clause{kIn, [][]int{t}})
+			}
 		}
 		return out
 	}
@@ -862,45 +865,48 @@ func (s *sigSpec) alphabet(name string) []Clause {
 	for _, t := range all {
 		out = append(out, Clause{kIn, [][]int{t}})
 	}
-	for _, t := range plain {
-		for _, u := range plain {
-			out = append(out, Clause{kIn, [][]int{t, u}})
+	if name == "Q" {
+		for _, t := range plain {
+			for _, u := range plain {
+				out = append(out, Clause{kIn, [][]int{t, u}})
+			}
 		}
 	}
 	if s.variadic() && len(s.fixed) == 0 {
 		for _, t := range plain {
 			out = append(out, Clause{kInT, [][]int{t}})
 		}
-		for _, t := range plain {
-			for _, u := range plain {
-				out = append(out, Clause{kInT, [][]int{t, u}})
+		if name == "Q" {
+			for _, t := range plain {
+				for _, u := range plain {
+					out = append(out, Clause{kInT, [][]int{t, u}})
+				}
 			}
 		}
 	}
 	return out
 }
 
-// plan: alphabet per clause-list length, per tier.
+// plan: alphabet per clause-list length (index = number of clauses), per tier.
 func (s *sigSpec) plan(thorough bool) []string {
 	switch s.name {
 	case "v2":
 		if thorough {
-			return []string{"Q", "Q", "Q", "K"}
+			return []string{"Q", "Q", "W", "k"}
 		}
 		return []string{"Q", "Q", "K"}
 	case "v1":
 		if thorough {
 			return []string{"Q", "Q", "Q", "K"}
 		}
-		return []string{"Q", "Q", "Q"}
 	case "v0":
+		if thorough {
+			return []string{"Q", "Q", "Q", "W"}
+		}
+	default:
 		if thorough {
 			return []string{"Q", "Q", "Q", "Q"}
 		}
-		return []string{"Q", "Q", "Q"}
-	}
-	if thorough {
-		return []string{"Q", "Q", "Q", "Q"}
 	}
 	return []string{"Q", "Q", "Q"}
 }
